@@ -258,3 +258,16 @@ fn ecc_block_1() {
     ecc_block(data.iter().cloned(), g, &mut ecc);
     assert_eq!(ecc[..5], vec![255, 207, 37, 244, 81]);
 }
+
+#[cfg(datamatrix_verif)]
+pub mod verif {
+    /// The generator polynomial table.
+    pub fn generator_polynomials() -> &'static [&'static [u8]] {
+        &super::GENERATOR_POLYNOMIALS
+    }
+
+    /// The `LOG` and `ANTI_LOG` tables.
+    pub fn log_tables() -> (&'static [u8; 256], &'static [u8; 255]) {
+        super::galois::verif::tables()
+    }
+}
